@@ -17,7 +17,7 @@ TRUSTED = [
     "the expectation table corpus/C07/testdata_expect.txt for the repository corpus (seed independent)",
 ]
 
-F3 = "F3 Value.Syntax + format.Node writes a bound with a negative operand (`< -1`) as `<-1`, which lexes as the arrow token: the printed text does not parse (witness corpus/C07/f3.cue; the text with a blank inserted passes every check)"
+F3_FIXED = "F3 (fixed by `fix: cue/format, internal/pretty: keep a blank between a `<` bound and a signed operand`): a bound with a negative operand (`< -1`) was written `<-1`; witness corpus/C07/f3.cue is a regression case"
 F10 = "F10 definition-mode export (default/All/Definitions+Hidden+Optional/Raw) of a close()d value that receives a further struct conjunct wraps the merged plain literal in close() (expr.go wrapCloseIfNecessary): close({a: 1, b?: int}) & {a: int} is printed as close({...}) & close({a: int}) and no longer admits b (witness corpus/C07/f10.cue)"
 F11 = "F11 definition-mode export of a recursively closed value wraps ALL its conjuncts in _#def (export.go Profile.Def): #D0 & {\"_c\"?: {b: 1}} with open #D0 is printed as {_#def, _#def: {...} & {\"_c\"?: {b: 1}}}; conjuncts that were open become closed, `...` of a plain conjunct re-opens the definition (witness corpus/C07/f11.cue)"
 F12 = "F12 self-contained definition-mode export hoists a reference into a file-level let that points inside the _#def wrapper (`let _schema_9 = _schema`): the text does not compile on its own (witness corpus/C07/f12.cue; repository corpus entries of class dangling-reference-in-hoisted-let)"
@@ -74,7 +74,7 @@ def witness_files():
         if not nm.endswith(".cue"):
             continue
         src = open(os.path.join(d, nm)).read()
-        meta = dict(re.findall(r"^// (finding|profile|kind): (\S+)", src, re.M))
+        meta = dict(re.findall(r"^// (finding|profile|kind|status): (\S+)", src, re.M))
         out.append((os.path.join(d, nm), meta))
     return out
 
@@ -97,7 +97,7 @@ def run(ctx):
     exe = vlib.build_model("C07", "extract/C07.v", "ocaml/c07_driver.ml")
     harness, hsecs = vlib.build_harness("c07")
     lap("proof_and_builds_incl_lock_waits")
-    known_text = {"F3": F3, "F10": F10, "F11": F11, "F12": F12, "F13": F13, "F14": F14, "F15": F15}
+    known_text = {"F10": F10, "F11": F11, "F12": F12, "F13": F13, "F14": F14, "F15": F15}
     cov = ctx.coverage
     nviol = [0]
 
@@ -142,9 +142,12 @@ def run(ctx):
         first = p.stdout.split("\n")[0].split(" ")
         verdict = first[1] if len(first) > 1 else "?"
         flags = first[2] if len(first) > 2 else "-"
-        still = not verdict.startswith("OK") or "f3" in flags.split(",") or "f15" in flags.split(",")
+        still = not verdict.startswith("OK") or "f15" in flags.split(",")
         wit[meta.get("finding", "?")] = {"file": os.path.relpath(path, vlib.VERIF), "verdict": verdict, "flags": flags, "still_fails": still}
-        if still and meta.get("finding") in known_text:
+        if still and meta.get("status") == "fixed":
+            violation({"kind": "fixed-finding-returned", "finding": meta.get("finding"), "program": open(path).read(),
+                       "profile": meta.get("profile", "default"), "output": p.stdout[:2000], "what": F3_FIXED if meta.get("finding") == "F3" else ""})
+        elif still and meta.get("finding") in known_text:
             ctx.known_finding(known_text[meta["finding"]])
     cov["finding_witnesses"] = wit
     lap("witnesses")
@@ -203,9 +206,6 @@ def run(ctx):
             continue
         suspect = "suspect" in flags
         # (a) DIRECT: re-evaluated text vs the original under the profile's projection
-        if "f3" in flags:
-            bump("F3-instances")
-            ctx.known_finding(F3)
         if "f8" in flags:
             bump("F8-instances-through-export")
             ctx.known_finding(F8)
@@ -370,6 +370,6 @@ def run(ctx):
 MANIFEST = {
     "category": "proof",
     "text": "Coq theorems on the CoreCUE evaluator model: for every list of conjunct groups whose normal form is printable (scalar-valued patterns), printing the normal form computed from the conjuncts and evaluating the printed expression gives exactly the result tree of the original - fields, presence, kinds, accepted and pinned atoms, closedness at every node (print_roundtrip = eval_print + normalize_sound + normalize_wf, by induction on depth, every label universe and fuel); the Final/Concrete/All projections commute with denotation and survive print+eval (project_sound, project_print_sound); the canonical shape of a scalar is equivalent (canon_scal_equiv); the bounds.go / MatchBuiltinRange rewriting to int/uint/sized types admits exactly the same atoms for every constraint list in every order (range_rewrite_sound). Tied to cue by (a) the direct check: format.Node(Value.Syntax(opts)) of generated evaluable programs must parse and compile on its own and re-evaluate to the same canonical form (closedness probed in the language) under the profile's projection, (b) the printed AST strictly converted to a CoreCUE expression must have the model value of the original, (c) the model's own printed normal form is read by cue and must give the same canonical form, (d) exact token agreement of bounds.go with range_rewrite, (e) the evaluable in.cue files of cue/testdata against a triaged expectation table.",
-    "note": "partial: the exporter's expression mode (expr.go mergeValues, adt.go reference re-linking, self.go let hoisting, export.Def's _#def wrapper) is not modelled - the model printer is a specification-layer value printer; those parts are covered only by the direct re-evaluation check. Struct-valued patterns are outside the printable normal forms (reported as OUT). Known findings on the unchanged tree (reported as KNOWN-FINDING, not violations): F3 `< -1` printed `<-1`; F10 close() re-wrapping; F11 _#def wraps all conjuncts; F12/F13 dangling references; F14 untriaged corpus errors. Mismatches inside the syntactic class of F10/F11 (a closed node receiving a further struct conjunct, definition-mode profiles) are never raised as violations.",
+    "note": "partial: the exporter's expression mode (expr.go mergeValues, adt.go reference re-linking, self.go let hoisting, export.Def's _#def wrapper) is not modelled - the model printer is a specification-layer value printer; those parts are covered only by the direct re-evaluation check. Struct-valued patterns are outside the printable normal forms (reported as OUT). Known findings on the unchanged tree (reported as KNOWN-FINDING, not violations; F3 `< -1` printed `<-1` is fixed and its witness a regression case): F10 close() re-wrapping; F11 _#def wraps all conjuncts; F12/F13 dangling references; F14 untriaged corpus errors. Mismatches inside the syntactic class of F10/F11 (a closed node receiving a further struct conjunct, definition-mode profiles) are never raised as violations.",
     "technique": "Coq proof (print/normalize round trip over the CoreCUE conjunct-set evaluator, profile projections, bound rewriting) + direct round-trip check on the implementation + extracted-model differential check of printed ASTs",
 }
